@@ -61,6 +61,9 @@ func (fc *FCtx) evalCall(e *ast.CallExpr, st *State) []Val {
 		if r, ok := fc.callFuncValue(e, st); ok {
 			return r
 		}
+		if r, ok := fc.callCurried(e, st); ok {
+			return r
+		}
 		oos("call through function value %s", name)
 	}
 	// chains that only feed dropped calls: ctx.EventManager(), ctx.Logger()
@@ -939,7 +942,7 @@ func (fc *FCtx) inlineCall(fi *FuncInfo, e *ast.CallExpr, recvExpr ast.Expr, st 
 				res = append(res, fr.returns[0].vals[i])
 				continue
 			}
-			n := fc.U.Fresh("ret_"+fi.Decl.Name.Name, s)
+			n := fc.U.Fresh("ret_"+fi.shortName(), s)
 			for _, r := range fr.returns {
 				r.st.assume(implies(and(r.st.pc[k:]...), fmt.Sprintf("(= %s %s)", n, r.vals[i].T)))
 			}
@@ -1079,4 +1082,41 @@ func (fc *FCtx) mapCard(ms *Sort) string {
 		"(forall ((m %s) (k %s) (x %s)) (! (= (%s (mk_%s (store (dom_%s m) k true) (store (val_%s m) k x))) (+ (%s m) (ite (select (dom_%s m) k) 0 1))) :pattern ((mk_%s (store (dom_%s m) k true) (store (val_%s m) k x)))))",
 		ms.Name, k, v, fn, ms.Name, ms.Name, ms.Name, fn, ms.Name, ms.Name, ms.Name, ms.Name))
 	return fn
+}
+
+// callCurried handles  g(a...)(b...)  where g is a function of this module whose whole body is `return func(...) {...}`
+// (validator factories such as validateUint64(name, positiveOnly)): g's parameters are bound to a..., then the
+// returned literal is inlined on b... . g's source joins the caller's hash.
+func (fc *FCtx) callCurried(e *ast.CallExpr, st *State) ([]Val, bool) {
+	inner, ok := unparen(e.Fun).(*ast.CallExpr)
+	if !ok {
+		return nil, false
+	}
+	fo := fc.calleeObj(inner)
+	if fo == nil || fo.Pkg() == nil {
+		return nil, false
+	}
+	gi := fc.E.funcs[fo.Pkg().Path()+"."+fo.Name()]
+	if gi == nil || gi.Decl == nil || gi.Decl.Body == nil || gi.Sig.Recv() != nil || gi.Sig.Variadic() || len(gi.Decl.Body.List) != 1 {
+		return nil, false
+	}
+	ret, ok := gi.Decl.Body.List[0].(*ast.ReturnStmt)
+	if !ok || len(ret.Results) != 1 {
+		return nil, false
+	}
+	lit, ok := unparen(ret.Results[0]).(*ast.FuncLit)
+	if !ok || len(inner.Args) != gi.Sig.Params().Len() {
+		return nil, false
+	}
+	for i, a := range inner.Args {
+		p := gi.Sig.Params().At(i)
+		st.vars[p] = fc.coerce(fc.eval(a, st), p.Type())
+	}
+	lsig, ok := gi.Pkg.TypesInfo.TypeOf(lit).(*types.Signature)
+	if !ok {
+		return nil, false
+	}
+	fc.inlined[gi.Key] = true
+	li := &FuncInfo{Pkg: gi.Pkg, Lit: lit, Key: gi.Key + "$ret", Sig: lsig}
+	return fc.inlineCall(li, e, nil, st), true
 }
